@@ -1,5 +1,153 @@
+/- Driver front-end of the Startup family (C16): (de)serialisation around
+   `SuppModel.Startup.step / enabledSet / serverRun` — the definitions the theorems are about.
+   The only logic here is the depth-first enumeration of maximal schedules, which calls `step`. -/
 import SuppModel.Drv.Util
+import SuppModel.Startup.Model
+
 namespace SuppModel.Drv.Startup
-open Lean SuppModel.Drv
-def handle (_j : Json) : Json := errJson "driver for Startup not built yet"
+open Lean SuppModel.Drv SuppModel.Startup
+
+def opOfString : String → Except String Op
+  | "prepare" => pure .prepare
+  | "call" => pure .call
+  | "close" => pure .close
+  | s => throw ("bad op " ++ s)
+
+def variantOfString : String → Except String Variant
+  | "current" => pure .current
+  | "legacyJoin" => pure .legacyJoin
+  | "legacyClose" => pure .legacyClose
+  | s => throw ("bad variant " ++ s)
+
+def excName : Exc → String
+  | .attributeError => "AttributeError"
+  | .typeError => "TypeError"
+  | .osError => "OSError"
+  | .brokenPipeError => "BrokenPipeError"
+  | .eofError => "EOFError"
+  | .runtimeError => "RuntimeError"
+  | .launchTimeout => "Exception"
+
+def pcName : Pc → String
+  | .pWith => "pWith" | .pIfThread => "pIfThread" | .pRet1 => "pRet1" | .pIfConn => "pIfConn"
+  | .pRet2 => "pRet2" | .pMk => "pMk" | .pStart => "pStart" | .pExit => "pExit"
+  | .rWith => "rWith" | .rRead => "rRead" | .rIf => "rIf" | .rJoin => "rJoin"
+  | .rIfConn => "rIfConn" | .rRun => "rRun" | .rExit => "rExit"
+  | .tTry => "tTry" | .tRun => "tRun" | .tClear => "tClear"
+  | .cTry => "cTry" | .cConn => "cConn" | .cExcept => "cExcept" | .cRun => "cRun"
+  | .cSend => "cSend" | .cRecv => "cRecv" | .cIf => "cIf" | .cRet => "cRet"
+  | .clTry => "clTry" | .clConn => "clConn" | .clExcept => "clExcept" | .clPass => "clPass"
+  | .clSend => "clSend" | .clClose => "clClose" | .clDel => "clDel"
+  | .done => "done"
+
+def tidChar (t : Nat) : Char := if t < 10 then Char.ofNat (48 + t) else Char.ofNat (87 + t)
+def tidOfChar (c : Char) : Nat := if c.toNat < 58 then c.toNat - 48 else c.toNat - 87
+def tidsToString (ts : List Nat) : String := String.ofList (ts.map tidChar)
+
+structure Req where
+  v : Variant
+  lf : Bool
+  w : List (List Op)
+
+def parseReq (j : Json) : Except String Req := do
+  let v ← match jstr j "variant" with
+    | .ok s => variantOfString s
+    | .error _ => pure Variant.current
+  let lf := match j.getObjValAs? Bool "lf" with | .ok b => b | .error _ => false
+  let wl ← jarr j "workload"
+  let w ← wl.toList.mapM (fun ops => do
+    let a ← ops.getArr?
+    a.toList.mapM (fun o => do opOfString (← o.getStr?)))
+  pure ⟨v, lf, w⟩
+
+def outJson : Out → Json
+  | .running => Json.str "running"
+  | .returned => Json.str "returned"
+  | .raised e => Json.str ("raised " ++ excName e)
+
+def stJson (r : Req) (s : St) : Json :=
+  Json.mkObj [
+    ("popen", Json.num s.popen),
+    ("conn", Json.bool s.conn.isSome),
+    ("closed", Json.bool (match s.conn with | some c => c.closed | none => false)),
+    ("live", Json.bool s.live),
+    ("closeMsgs", Json.num s.closeMsgs),
+    ("lock", match s.lock with | some t => Json.num t | none => Json.null),
+    ("pthread", Json.bool s.pthread.isSome),
+    ("threads", Json.arr (s.threads.map (fun th => Json.mkObj [
+        ("out", outJson th.out), ("answered", Json.num th.answered), ("pc", Json.str (pcName th.pc))])).toArray),
+    ("enabled", Json.str (tidsToString (s.enabledSet r.v r.lf))),
+    ("final", Json.bool s.final)]
+
+/-- strict replay with, per decision, the enabled set and the chosen thread's pc before the step -/
+def runSchedule (r : Req) (sched : List Nat) : Json := Id.run do
+  let mut s := init r.w
+  let mut ens : Array Json := #[]
+  let mut pcs : Array Json := #[]
+  let mut k := 0
+  for t in sched do
+    ens := ens.push (Json.str (tidsToString (s.enabledSet r.v r.lf)))
+    pcs := pcs.push (Json.str (match s.threads[t]? with | some th => pcName th.pc | none => "?"))
+    match step r.v r.lf s t with
+    | some s' => s := s'; k := k + 1
+    | none =>
+      return Json.mkObj [("blocked_at", Json.num k), ("enabled", Json.arr ens), ("pcs", Json.arr pcs),
+                         ("state", stJson r s)]
+  return Json.mkObj [("enabled", Json.arr ens), ("pcs", Json.arr pcs), ("state", stJson r s)]
+
+/-- lines that neither read nor write shared state: running them first loses no behaviour -/
+def invisible (v : Variant) : Pc → Bool
+  | .pRet1 | .pRet2 | .tTry | .cTry | .cExcept | .cRun | .cIf | .cRet | .clTry | .clExcept | .clPass => true
+  | .rIf => v != .legacyJoin
+  | _ => false
+
+/-- depth-first enumeration of all maximal strict schedules (with `por`: a thread standing at an
+    invisible line is the only one explored) -/
+partial def enumerate (r : Req) (por : Bool) (limit : Nat) (s : St) (pre : List Nat)
+    (acc : Array String × Bool) : Array String × Bool :=
+  if acc.1.size ≥ limit then (acc.1, true) else
+  let en := s.enabledSet r.v r.lf
+  if en.isEmpty then (acc.1.push (tidsToString pre.reverse), acc.2) else
+  let pick := if por then
+      match en.find? (fun t => match s.threads[t]? with | some th => invisible r.v th.pc | none => false) with
+      | some t => [t]
+      | none => en
+    else en
+  pick.foldl (fun acc t =>
+    match step r.v r.lf s t with
+    | some s' => enumerate r por limit s' (t :: pre) acc
+    | none => acc) acc
+
+def srvInOfString : String → Except String SrvIn
+  | "request" => pure .request
+  | "close" => pure .closeReq
+  | "eof" => pure .eof
+  | "garbage" => pure .garbage
+  | s => throw ("bad server input " ++ s)
+
+def handle (j : Json) : Json :=
+  match jstr j "op" with
+  | .ok "run" =>
+    match parseReq j, jstr j "schedule" with
+    | .ok r, .ok sch => runSchedule r (sch.toList.map tidOfChar)
+    | .error e, _ => errJson e
+    | _, .error e => errJson e
+  | .ok "enum" =>
+    match parseReq j with
+    | .error e => errJson e
+    | .ok r =>
+      let por := match j.getObjValAs? Bool "por" with | .ok b => b | .error _ => false
+      let limit := match jnat j "limit" with | .ok n => n | .error _ => 100000
+      let (scheds, trunc) := enumerate r por limit (init r.w) [] (#[], false)
+      Json.mkObj [("n", Json.num scheds.size), ("truncated", Json.bool trunc),
+                  ("schedules", Json.arr (scheds.map Json.str))]
+  | .ok "server" =>
+    match (jarr j "inputs").bind (fun a => a.toList.mapM (fun x => do srvInOfString (← x.getStr?))) with
+    | .error e => errJson e
+    | .ok ins =>
+      let o := serverRun ins
+      Json.mkObj [("running", Json.bool o.continues), ("replies", Json.num o.replies),
+                  ("closed", Json.bool o.closesConn)]
+  | _ => errJson "unknown startup op"
+
 end SuppModel.Drv.Startup
